@@ -239,7 +239,8 @@ theorem rel_resetTimer {C : TQContract} {m : C05.M} {s : State} (r : Rel C m s) 
 /-- how `cb id` changes the control part of the monitor's state -/
 def Fired (m m' : C05.M) : Prop :=
   m'.stop = m.stop ∧ m'.fired = m.fired + 1 ∧ m'.mustFire = false ∧ m'.inRun = m.inRun ∧ m'.polled = m.polled ∧
-  m'.startRunnable = m.startRunnable ∧ m'.startIntr = m.startIntr ∧ m'.intr = m.intr ∧ m'.clock = m.clock
+  m'.startRunnable = m.startRunnable ∧ m'.startIntr = m.startIntr ∧ m'.intr = m.intr ∧ m'.clock = m.clock ∧
+  m'.looked = false
 
 theorem find_id_imm {l : List C05.Imm} (hn : IdsNodup l) {j : C05.Imm} (hj : j ∈ l) :
     l.find? (fun i => i.id == j.id) = some j := by
@@ -261,9 +262,9 @@ theorem rel_cb_imm {C : TQContract} {m : C05.M} {s : State} (r : Rel C m s) (j :
   obtain ⟨hj, _, _⟩ := nextImm_spec m.imms j hn
   rw [erase_eq_filter_id r.immIds hj] at hq'
   obtain ⟨hdrop, hr⟩ := rel_remove_imm r j.id j.prio q' hj hq'
-  refine ⟨{ m with imms := m.imms.filter (fun i => i.id != j.id), fired := m.fired + 1, mustFire := false }, ?_,
+  refine ⟨{ m with imms := m.imms.filter (fun i => i.id != j.id), fired := m.fired + 1, mustFire := false, looked := false }, ?_,
     ⟨hr.clock, hr.intr, hr.imm, hr.immIds, hr.net, hr.tm, hr.disjIN, hr.disjIT, hr.disjNT⟩,
-    ⟨rfl, rfl, rfl, rfl, rfl, rfl, rfl, rfl, rfl⟩⟩
+    ⟨rfl, rfl, rfl, rfl, rfl, rfl, rfl, rfl, rfl, rfl⟩⟩
   simp only [C05.step, hstop, Option.isSome_none, Bool.false_eq_true, if_false, find_id_imm r.immIds hj, hn, hdrop,
     beq_self_eq_true, if_true]
   rfl
@@ -300,8 +301,8 @@ theorem rel_cb_net {C : TQContract} {m : C05.M} {s : State} (r : Rel C m s) (n1 
   have hsub : ∀ x, x ∈ m.nets.filter (fun x => x.id != id) ↔ x ∈ m.nets ∧ x.id ≠ id := by
     intro x; rw [List.mem_filter]; simp only [bne_iff_ne, ne_eq]
   have hnet := rnet_drop r1.net id e.fd d sk q hsk hpp hget hdrop hinv hsub (nodup_filter_ids _ _ _ r.net.ids)
-  refine ⟨{ m with nets := m.nets.filter (fun x => x.id != id), fired := m.fired + 1, mustFire := false }, ?_, ?_,
-    ⟨rfl, rfl, rfl, rfl, rfl, rfl, rfl, rfl, rfl⟩⟩
+  refine ⟨{ m with nets := m.nets.filter (fun x => x.id != id), fired := m.fired + 1, mustFire := false, looked := false }, ?_, ?_,
+    ⟨rfl, rfl, rfl, rfl, rfl, rfl, rfl, rfl, rfl, rfl⟩⟩
   · simp only [C05.step, hstop, Option.isSome_none, Bool.false_eq_true, if_false, himm, List.find?_nil,
       List.isEmpty_nil, Bool.not_true, hfind, C05.dropId, List.filter_nil, e3]
     rfl
@@ -315,7 +316,7 @@ theorem rel_cb_net {C : TQContract} {m : C05.M} {s : State} (r : Rel C m s) (n1 
 /-- `events_timer_get` released timer `id` -/
 theorem rel_cb_timer {C : TQContract} {m : C05.M} {s : State} (r : Rel C m s) (q' : TimerQueue.TQ) (rr id : Nat)
     (hg : TimerQueue.getptr s.tq ((s.clock / 1000000 : Nat) : Int) ((s.clock % 1000000 : Nat) : Int) = (q', some (rr, id)))
-    (hstop : m.stop = none) (himm : m.imms = []) (hnr : m.nets.any (·.ready) = false) :
+    (hstop : m.stop = none) (himm : m.imms = []) (hnr : m.nets.any (·.ready) = false) (hlook : m.looked = true) :
     ∃ m', C05.step m (.cb id) = .ok m' ∧
       Rel C m' { s with tq := q', timers := s.timers.filter (fun p => p.1 != id) } ∧ Fired m m' := by
   obtain ⟨us, dl, hv, _, hmin, hok, hrecs⟩ := EventsC04.tm_getptr_some r.tm.ok s.clock q' rr id hg
@@ -337,11 +338,11 @@ theorem rel_cb_timer {C : TQContract} {m : C05.M} {s : State} (r : Rel C m s) (q
     intro u hu
     have := hmin u.id u.usec u.deadline ((r.tm.iff _ _ _).mp hu)
     simp only [decide_eq_true_eq]; omega
-  refine ⟨{ m with tms := m.tms.filter (fun x => x.id != id), fired := m.fired + 1, mustFire := false }, ?_,
+  refine ⟨{ m with tms := m.tms.filter (fun x => x.id != id), fired := m.fired + 1, mustFire := false, looked := false }, ?_,
     ⟨hr.clock, hr.intr, hr.imm, hr.immIds, hr.net, hr.tm, hr.disjIN, hr.disjIT, hr.disjNT⟩,
-    ⟨rfl, rfl, rfl, rfl, rfl, rfl, rfl, rfl, rfl⟩⟩
+    ⟨rfl, rfl, rfl, rfl, rfl, rfl, rfl, rfl, rfl, rfl⟩⟩
   simp only [C05.step, hstop, Option.isSome_none, Bool.false_eq_true, if_false, himm, List.find?_nil,
-    List.isEmpty_nil, Bool.not_true, hnn, hft, hnr, hless, hdrop]
+    List.isEmpty_nil, Bool.not_true, hnn, hft, hnr, hless, hdrop, hlook, Bool.and_false]
   rfl
 
 end Percival.Proofs.EventsC05
